@@ -29,13 +29,15 @@ from vmon.oracle import c01_sfntdir as sd
 PROPERTY = "C01"
 LEVEL = "exploration"
 RULE = ("one configuration = (corpus font or TTC member or derived font [re-flavoured / injected unknown tag / "
-        "garbage-replaced table / transplant], lazy mode, touch pattern all|subset|none, recalcBBoxes); it is "
+        "garbage-replaced table / transplant / generated GPOS pair lookups / generated composite glyphs], lazy mode, touch pattern all|subset|none, recalcBBoxes); it is "
         "non-trivial when the getTableData monitor saw at least one table take the path the pattern is about "
         "(compiled for all/subset, pass-through for none/subset) and every oracle stage (a)-(c) reached a verdict; "
         "distinct by that tuple")
 ASSUMPTIONS = [
     "content equality (a) is equality of the library's own XML dump applied symmetrically to original and saved table bytes (faithfulness of the dump is C03's property), cross-checked by spec-written readers for name / hmtx / vmtx and by a HarfBuzz before/after differential for outlines, advances and cmap",
-    "derived fields the library documents as recomputed on compile are masked in (a) only: head.checkSumAdjustment, OS/2 usFirstCharIndex/usLastCharIndex, post extraNames that are standard Macintosh names; with recalcBBoxes=True also head/glyph bboxes, hhea/vhea extents, maxp maxima, CFF FontBBox; their correctness is C04's job",
+    "derived fields the library documents as recomputed on compile are masked in (a) only: head.checkSumAdjustment, OS/2 usFirstCharIndex/usLastCharIndex, post extraNames that are standard Macintosh names; with recalcBBoxes=True also head/glyph bboxes, head.flags bit 1 (set by maxp.recalc from 'every xMin equals its lsb'), hhea/vhea extents, maxp maxima, CFF FontBBox; their correctness is C04's job",
+    "HarfBuzz translates a top-level glyf outline by (lsb - header xMin): with recalcBBoxes=True a glyph whose header xMin changed (struct-level read) may differ by exactly that uniform horizontal translation and nothing else",
+    "generated inputs (spec-written, vmon/gen/c01_gpos.py and c01_glyf.py): a GPOS with PairPos format 1/2 record arrays above the lazy-array threshold under different ValueFormats, and composite glyphs carrying every preservable component flag and transform form written into the binary glyf by struct-level surgery (non-variable glyf hosts; composites reference only glyphs that stay simple)",
     "raw table bytes of sfnt/TTC files come from a spec-written directory parser (vmon/oracle/c01_sfntdir.py); WOFF/WOFF2 containers are read through the library's reader (the container is C04's property)",
     "WOFF2 output: glyf/loca are normalised by the WOFF2 transform, so for that flavour they are judged by content (a), not by byte identity (c)",
     "transplanted / garbage-table fonts are judged only if the library loads them completely (file the loader accepts); recalcTimestamp=False always",
@@ -205,13 +207,29 @@ def _drop(*names):
     return lambda lines: [l for l in lines if not rx.match(l)]
 
 
+def _head_rb(lines):
+    """recalcBBoxes=True: head bbox, and head.flags bit 1 ('left sidebearing point at x=0'), which
+    maxp.recalc sets from 'every glyph's xMin equals its lsb'."""
+    out = []
+    rx = re.compile(r'^(\s*<flags value=")([01 ]+)("/>\s*)$')
+    for l in _drop("xMin", "yMin", "xMax", "yMax")(lines):
+        m = rx.match(l)
+        if m:
+            bits = m.group(2).replace(" ", "")
+            if len(bits) == 16:
+                bits = bits[:14] + "x" + bits[15]
+                l = m.group(1) + bits + m.group(3)
+        out.append(l)
+    return out
+
+
 def _glyf_bbox(lines):
     rx = re.compile(r'(<TTGlyph name="[^"]*")( xMin="-?\d+" yMin="-?\d+" xMax="-?\d+" yMax="-?\d+")')
     return [rx.sub(r"\1", l) if "<TTGlyph " in l else l for l in lines]
 
 
 _MASKS = {   # tag -> (always, only with recalcBBoxes=True)
-    "head": (_drop("checkSumAdjustment"), _drop("xMin", "yMin", "xMax", "yMax")),
+    "head": (_drop("checkSumAdjustment"), _head_rb),
     "OS/2": (_drop("usFirstCharIndex", "usLastCharIndex"), None),
     "hhea": (None, _drop("advanceWidthMax", "minLeftSideBearing", "minRightSideBearing", "xMaxExtent")),
     "vhea": (None, _drop("advanceHeightMax", "minTopSideBearing", "minBottomSideBearing", "yMaxExtent")),
@@ -337,6 +355,19 @@ def cases(tier, seed):
         cs.append({"id": "transplant:%s:%s<-%s" % (tag.strip(), host["path"], donor["path"]), "group": "transplant",
                    "tag": tag, "path": host["path"], "donor": donor["path"], "member": None, "seed": seed,
                    "configs": [[r, 0, False], [(r + 1) % 3, 1, False]] + ([[(r + 2) % 3, 0, True]] if T else [])})
+    # generated GPOS: pair-adjustment record arrays above the lazy-array threshold with different
+    # ValueFormats inside one table (lazy=True reads them record by record)
+    big = [rec for rec in pool if rec["complete"] and rec["numGlyphs"] >= 16]
+    for rec in rnd.sample(big, min(len(big), 60 if T else 10)):
+        cs.append({"id": "gpos:" + _fid(rec), "group": "gpos", "path": rec["path"], "member": None, "seed": seed,
+                   "configs": [[1, 0, False], [0, 0, False], [2, 0, False], [1, 0, True]] + ([[1, 1, False], [1, 2, False]] if T else [])})
+    # composite glyphs carrying every preservable component flag and every transform form, written
+    # into the binary glyf table by struct-level surgery
+    tt = [rec for rec in pool if rec["complete"] and rec["outlines"] == "glyf" and not rec["variable"]
+          and rec["numGlyphs"] >= 4 and "VARC" not in rec["tables"]]
+    for rec in (tt if T else rnd.sample(tt, min(len(tt), 12))):
+        cs.append({"id": "compflags:" + _fid(rec), "group": "compflags", "path": rec["path"], "member": None, "seed": seed,
+                   "configs": [[2, 0, False], [0, 0, True], [1, 0, False], [0, 0, False]] + ([[2, 0, True], [1, 0, True], [2, 1, False]] if T else [])})
     return cs
 
 
@@ -412,6 +443,46 @@ def _source(case, ctx):
         t = DefaultTable(case["tag"])
         t.data = dtabs[case["tag"]]
         f[case["tag"]] = t
+    elif g == "gpos":
+        from vmon.gen import c01_gpos
+
+        _v, tabs, _k = raw_tables(src)
+        import struct as _s
+
+        t = DefaultTable("GPOS")
+        t.data, desc = c01_gpos.build(rnd, _s.unpack(">H", tabs["maxp"][4:6])[0])
+        f["GPOS"] = t
+        ctx.note("generated-gpos")
+    elif g == "compflags":
+        from vmon.gen import c01_glyf as GL
+
+        _v, tabs, _k = raw_tables(src)
+        try:
+            glyphs, fmt = GL.split(tabs)
+        except (GL.Bad, KeyError, Exception):
+            ctx.skip("compflags: glyf/loca of the host cannot be taken apart")
+            raise LibRaised()
+        simple = [i for i, gl in enumerate(glyphs) if len(gl) >= 10 and GL.ncontours(gl) > 0]
+        if not simple:
+            ctx.skip("compflags: host has no simple glyph to reference")
+            raise LibRaised()
+        targets = [i for i in range(1, len(glyphs)) if i not in simple[:1]]
+        chosen = rnd.sample(targets, min(len(targets), rnd.choice([1, 2, 3])))
+        refs = [j for j in simple if j not in chosen]      # only glyphs that stay simple: no cycles
+        if not refs:
+            ctx.skip("compflags: host has no simple glyph left to reference")
+            raise LibRaised()
+        for i in chosen:
+            glyphs[i] = GL.make_composite(rnd, refs)
+        joined = GL.join(glyphs, fmt)
+        if joined is None:
+            ctx.skip("compflags: short loca format overflows")
+            raise LibRaised()
+        for tag, data in (("glyf", joined[0]), ("loca", joined[1])):
+            t = DefaultTable(tag)
+            t.data = data
+            f[tag] = t
+        ctx.note("generated-composites")
     from fontTools.ttLib import TTLibError
 
     try:
@@ -633,7 +704,7 @@ def _roundtrip(ctx, env, lazy, touch, rb, rnd):
         bad = True
     # HarfBuzz before/after differential
     if touch == "all" and kind1 == "sfnt" and env["kind"] in ("sfnt", "ttc"):
-        if _hb_diff(ctx, env, F1, label):
+        if _hb_diff(ctx, env, F1, label, rb, new):
             bad = True
     # ---- (b) second generation ---------------------------------------------------
     g, st2, _t = _load(ctx, env, F1, lazy, rb, label + " gen2", new, touched, touch, rnd)
@@ -718,6 +789,32 @@ def _struct_diff(ctx, orig, new, label):
                 ctx.violation({"kind": "struct-content", "table": mtx},
                               "%s: spec-written reader finds different %s metrics after load+save" % (label, mtx),
                               {"glyph": gid, "original": a[gid:gid + 1], "recompiled": b[gid:gid + 1]})
+    if all(t in orig and t in new for t in ("glyf", "loca", "head", "maxp")) and \
+            (orig["glyf"] != new["glyf"] or orig["loca"] != new["loca"]):
+        from vmon.gen import c01_glyf as GL
+
+        try:
+            ga, _fa = GL.split(orig)
+            gb, _fb = GL.split(new)
+            ca = [GL.components(g) for g in ga]
+            cb = [GL.components(g) for g in gb]
+        except Exception:
+            ca = None
+        if ca is not None and any(c for c in ca):
+            ctx.judged()
+            ctx.note("struct-level:glyf-components")
+            if ca != cb:
+                bad = True
+                gid = next((i for i, (x, y) in enumerate(zip(ca, cb)) if x != y), min(len(ca), len(cb)))
+                x, y = ca[gid] if gid < len(ca) else None, cb[gid] if gid < len(cb) else None
+                what = "component list"
+                if x and y and len(x) == len(y):
+                    k = next(i for i, (p, q) in enumerate(zip(x, y)) if p != q)
+                    what = ["flags", "glyph index", "argument 1", "argument 2", "transform"][
+                        next(i for i in range(5) if x[k][i] != y[k][i])]
+                ctx.violation({"kind": "struct-content", "table": "glyf", "what": "component " + what},
+                              "%s: spec-written reader finds a different composite glyph (%s) after load+save" % (label, what),
+                              {"glyph": gid, "original": repr(x)[:400], "recompiled": repr(y)[:400]})
     return bad
 
 
@@ -743,10 +840,35 @@ def _cmap4_unterminated(data):
     return False
 
 
-def _hb_diff(ctx, env, F1, label):
+def _hb_diff(ctx, env, F1, label, rb=False, new=None):
     import uharfbuzz as hb
 
-    def snap(data, idx):
+    # HarfBuzz translates a top-level glyf outline horizontally by (lsb - xMin of the glyph header).
+    # With recalcBBoxes=True the header bbox is a recomputed (masked, C04's) field; for a glyph whose
+    # header xMin really changed (struct-level read) the two outlines may differ by exactly one
+    # uniform horizontal translation and by nothing else.
+    hdr = None
+    if rb and new is not None and "glyf" in env["orig"] and "glyf" in new:
+        import struct
+        from vmon.gen import c01_glyf as GL
+
+        try:
+            hdr = [[struct.unpack(">h", g[2:4])[0] if len(g) >= 10 else None for g in GL.split(t)[0]]
+                   for t in (env["orig"], new)]
+        except Exception:
+            hdr = None
+
+    def _only_header_shift(gid, pa, pb):
+        if hdr is None or gid >= len(hdr[0]) or gid >= len(hdr[1]) or hdr[0][gid] == hdr[1][gid]:
+            return False
+        if len(pa) != len(pb) or not pa or not pa[0][1]:
+            return False
+        dx = pb[0][1][0][0] - pa[0][1][0][0]
+        if dx != hdr[0][gid] - hdr[1][gid]:
+            return False
+        return [(op, tuple((p[0] + dx, p[1]) for p in pts)) for op, pts in pa] == pb
+
+    def snap(data, idx, side="a"):
         face = hb.Face(hb.Blob(data), idx)
         font = hb.Font(face)
         n = face.glyph_count
@@ -772,7 +894,7 @@ def _hb_diff(ctx, env, F1, label):
 
     try:
         a = snap(env["src"], env["member"] or 0)
-        b = snap(F1, 0)
+        b = snap(F1, 0, "b")
     except Exception as e:
         ctx.note("hb-differential-unavailable:" + type(e).__name__)
         return False
@@ -788,6 +910,9 @@ def _hb_diff(ctx, env, F1, label):
     else:
         for li, (ra, rb_) in enumerate(zip(a["glyphs"], b["glyphs"])):
             for gid, (x, y) in enumerate(zip(ra, rb_)):
+                if x != y and x[1:] == y[1:] and _only_header_shift(gid, x[0], y[0]):
+                    ctx.note("hb-outline-equal-up-to-header-xMin-shift")
+                    continue
                 if x != y:
                     what = "outline" if x[0] != y[0] else "advance"
                     break
